@@ -1,3 +1,4 @@
+import operator
 import re
 import sys
 from abc import ABC, abstractmethod
@@ -485,6 +486,8 @@ class _ChildrenList(_TaskList):
         :raises RuntimeError: if WBS integrity lost (i.e. task with same ID already exists)
         """
         _check_not_none(task, 'Task')
+        # An index that is not an integer (1.0, '1') is refused here, before the task is re-parented
+        index = operator.index(index)
         siblings = [t for t in self._list if t is not task]
         if index < 0 or index > len(siblings):
             raise IndexError("list index out of range")
